@@ -5,6 +5,11 @@
    of the same atomic updates): the final Bloom bits, Count-Min matrix and HyperLogLog registers
    equal those of the updates applied one after another — because each update is ONE atomic step
    (Bloom: one SETBIT per probe) and these steps commute.
+   PROVED for the cuckoo filter in the regime where the clause holds: two clients inserting
+   concurrently (isFree script, add script, HINCRBY as separate round trips) under ANY schedule,
+   when the first candidate bucket of each element has at least two free slots: both report
+   success, both fingerprints are stored, every bucket counter still equals its occupied slots
+   and Length has grown by exactly two (C16_cuckoo_room_for_both).
    REFUTED with kernel-checked witness schedules (replayed on the implementation by the
    command-granularity scheduler, known findings): two concurrent cuckoo inserts racing for one
    free slot both report success while one element is not findable and Length exceeds the
@@ -48,9 +53,36 @@ Theorem C16_topk_refuted :
   ra = Some 1 /\ rb = Some 1 /\ r_zset s (rt_heap tk_h) = [(tk_w, 20)].
 Proof. exact topk_concurrent_inserts_lose_heavy_element. Qed.
 
+(* the regime in which the cuckoo clause holds *)
+From GX.Model Require Import Cuckoo.
+From GX.Proofs Require Import CuckooInv RedisCuckooInv CuckooConc NonVacuity.
+Theorem C16_cuckoo_room_for_both : forall (key meta : bytes) (size bsize : N),
+  (forall i, meta <> bucket_key key i) -> (forall i, meta <> len_key (bucket_key key i)) ->
+  1 <= bsize -> bsize < 2 ^ 62 -> 0 < size ->
+  forall (fpl retries : N) (h64 : bytes -> N) (sched : list bool) (fuel : nat) (s : store)
+         (x y fa : bytes) (ia ia2 : N) (fb : bytes) (ib ib2 : N),
+  RI key meta size bsize s -> (4 <= fuel)%nat ->
+  rck_positions h64 (hdl key meta size bsize fpl retries) x = Ok (fa, ia, ia2) ->
+  rck_positions h64 (hdl key meta size bsize fpl retries) y = Ok (fb, ib, ib2) ->
+  ia < size -> ib < size -> fa <> [] -> fb <> [] ->
+  (occ (blist key s ia) + 2 <= N.to_nat bsize)%nat -> (occ (blist key s ib) + 2 <= N.to_nat bsize)%nat ->
+  exists s', interleave sched fuel (ck_insert_prog h64 (hdl key meta size bsize fpl retries) x)
+                                   (ck_insert_prog h64 (hdl key meta size bsize fpl retries) y) s = (s', Some 1, Some 1) /\
+    RI key meta size bsize s' /\ tot key size s' = (tot key size s + 2)%nat /\
+    In fa (blist key s' ia) /\ In fb (blist key s' ib).
+Proof. exact concurrent_inserts_with_room. Qed.
+
+Example C16_cuckoo_room_premises_hold : forall sched, exists s s',
+  RI k_a k_m 4 2 s /\
+  interleave sched 4 (ck_insert_prog h64c (hdl k_a k_m 4 2 2 5) [1]) (ck_insert_prog h64c (hdl k_a k_m 4 2 2 5) [2]) s = (s', Some 1, Some 1) /\
+  RI k_a k_m 4 2 s' /\ tot k_a 4 s' = 2%nat /\ In [49; 50] (blist k_a s' 1) /\ In [57; 56] (blist k_a s' 1).
+Proof. exact concurrent_inserts_premises_hold. Qed.
+
+
 Print Assumptions C16_commuting_updates.
 Print Assumptions C16_bloom.
 Print Assumptions C16_cms.
 Print Assumptions C16_hll.
 Print Assumptions C16_cuckoo_refuted.
 Print Assumptions C16_topk_refuted.
+Print Assumptions C16_cuckoo_room_for_both.
